@@ -3,6 +3,7 @@ package main
 import (
 	"fmt"
 	"go/ast"
+	"go/token"
 	"go/types"
 	"sort"
 	"strings"
@@ -314,6 +315,51 @@ func (m *Model) findModules(r *Run) {
 					}
 				}
 			}
+			// the same written as `if <msg.Type …> == CONST { … }`
+			info := mi.HandleMsg.Info()
+			mentionsMsgType := func(x ast.Expr) bool {
+				found := false
+				ast.Inspect(x, func(nd ast.Node) bool {
+					if se, ok := nd.(*ast.SelectorExpr); ok {
+						if sel, ok := info.Selections[se]; ok && sel.Kind() == types.FieldVal && sel.Obj().Name() == "Type" {
+							if nt, ok := derefNamed(sel.Recv()); ok && nt.Obj().Pkg() != nil && nt.Obj().Pkg().Path() == pkgHCWS && nt.Obj().Name() == "Msg" {
+								found = true
+							}
+						}
+					}
+					return true
+				})
+				return found
+			}
+			ast.Inspect(mi.HandleMsg.Body, func(nd ast.Node) bool {
+				is, ok := nd.(*ast.IfStmt)
+				if !ok {
+					return true
+				}
+				be, ok := ast.Unparen(is.Cond).(*ast.BinaryExpr)
+				if !ok || be.Op != token.EQL {
+					return true
+				}
+				var c *types.Const
+				switch {
+				case mentionsMsgType(be.X):
+					c = constOf(info, be.Y)
+				case mentionsMsgType(be.Y):
+					c = constOf(info, be.X)
+				}
+				if c == nil {
+					return true
+				}
+				cc := &ast.CaseClause{Case: is.Pos(), Body: is.Body.List}
+				calls := armCalls(info, cc, isOwn)
+				a := Arm{Const: c, Clause: cc, Module: mi}
+				if len(calls) == 1 {
+					a.Method = calls[0]
+					a.Impl = p.Funcs[calls[0]]
+				}
+				mi.Arms = append(mi.Arms, a)
+				return true
+			})
 			m.Modules = append(m.Modules, mi)
 		}
 	}
